@@ -1,6 +1,6 @@
 (* C02 - AEAD decryption inverts encryption, rejects forgeries, wipes plaintext
    (ASCON-128/128a/80pq part; SIV and ISAP are in Properties_C06.v). *)
-From AsconV Require Import Model.Aeadm Model.Sivm Proofs.AeadP Proofs.PermP Props.Properties_C01 Props.Properties_C06.
+From AsconV Require Import Model.Aeadm Model.Sivm Proofs.AeadP Proofs.IncDecP Proofs.PermP Props.Properties_C01 Props.Properties_C06.
 From Coq Require Import ZArith.
 Local Open Scope nat_scope.
 
@@ -32,6 +32,65 @@ Theorem C02_model : forall v K N A C, variant_ok v -> wf_kn v K N -> bytes_ok K 
 Proof. intros v K N A C Hv. exact (decrypt_c_spec Perm.perm perm_len v (variant_wf v Hv) perm_ok K N A C). Qed.
 Print Assumptions C02_model.
 
+(* Incremental decryption (ascon*_aead_init / _start / _decrypt_block ... /
+   _decrypt_finalize; model functions inc_init, inc_start, inc_decrypt_block,
+   inc_decrypt_finalize of Model/Aeadm.v, extracted under the names x_inc_...).
+   [inc_decrypt_run v K N A chunks tag] (Proofs/IncDecP.v) is: inc_init with
+   nonce N and key K, inc_start with A, one inc_decrypt_block call per chunk of
+   the ciphertext body - ANY split, empty chunks included - then
+   inc_decrypt_finalize with the tag; it returns finalize's int and the list of
+   plaintext chunks the block calls handed back.
+   For every variant, key, nonce, AD, chunking and 16-byte tag: call i returns
+   as many bytes as it was given, and the result is 0 with the concatenated
+   outputs equal to m exactly when the specification decrypts
+   body || tag to Some m, and -1 otherwise. *)
+Theorem C02_incremental : forall v K N A chunks tag, variant_ok v -> wf_kn v K N -> bytes_ok K ->
+  length tag = 16 -> bytes_ok tag ->
+  let '(r, outs) := inc_decrypt_run Perm.perm v K N A chunks tag in
+  map (@length _) outs = map (@length _) chunks /\
+  match Aead.decrypt Perm.perm v K N A (concat chunks ++ tag) with
+  | Some m => r = 0%Z /\ concat outs = m
+  | None => r = (-1)%Z
+  end.
+Proof.
+  intros v K N A chunks tag Hv Hkn HK Ht Htok. unfold inc_decrypt_run.
+  pose proof (packet_decrypt_spec Perm.perm perm_len v (variant_wf v Hv) perm_ok (inc_init v (Some N) (Some K)) A chunks tag Hkn HK Ht Htok) as P.
+  destruct (packet_decrypt Perm.perm v (inc_init v (Some N) (Some K)) A chunks tag) as [s' [r outs]].
+  exact (conj (proj1 (proj2 (proj2 P))) (proj2 (proj2 (proj2 (proj2 P))))).
+Qed.
+Print Assumptions C02_incremental.
+
+(* What happens to plaintext that has already been released when the tag turns
+   out wrong.  The block calls write their plaintext into the caller's buffers
+   before the tag is seen, *_decrypt_finalize calls
+   ascon_aead_check_tag(0, 0, tag2, tag, 16) - no buffer - and so, unlike the
+   one-shot function (C02_model: buffer zeroed), the incremental API cannot
+   take anything back; ascon/aead.h says: "It is very important that the
+   plaintext output from decryption be discarded if the authentication tag
+   fails to verify.  Applications should not use any of the data before
+   verifying the tag."  The model says the same: the released chunks are the
+   same for every tag, they are the plaintext p whose genuine encryption is
+   body || t' for the one right tag t', and the verdict is 0 iff tag = t'; the
+   one-shot decrypt_c on body || tag returns the same verdict and, when it is
+   -1, zeros in place of what the incremental calls have handed out. *)
+Theorem C02_incremental_released : forall v K N A chunks tag, variant_ok v -> wf_kn v K N -> bytes_ok K ->
+  length tag = 16 -> bytes_ok tag ->
+  let '(r, outs) := inc_decrypt_run Perm.perm v K N A chunks tag in
+  (forall tag', snd (inc_decrypt_run Perm.perm v K N A chunks tag') = outs) /\
+  (exists t', length t' = 16 /\ Aead.encrypt Perm.perm v K N A (concat outs) = concat chunks ++ t' /\
+              r = if beq_bytes t' tag then 0%Z else (-1)%Z) /\
+  decrypt_c Perm.perm v K N A (concat chunks ++ tag) =
+    DecDone r (if (r =? 0)%Z then concat outs else zeros (length (concat chunks))).
+Proof.
+  intros v K N A chunks tag Hv Hkn HK Ht Htok. unfold inc_decrypt_run.
+  pose proof (packet_decrypt_spec Perm.perm perm_len v (variant_wf v Hv) perm_ok (inc_init v (Some N) (Some K)) A chunks tag Hkn HK Ht Htok) as P.
+  pose proof (packet_decrypt_ok Perm.perm perm_len v (variant_wf v Hv) perm_ok (inc_init v (Some N) (Some K)) A chunks tag Hkn HK Ht Htok) as Q.
+  pose proof (fun tag' => packet_decrypt_outs_tag Perm.perm v (inc_init v (Some N) (Some K)) A chunks tag' tag) as R.
+  destruct (packet_decrypt Perm.perm v (inc_init v (Some N) (Some K)) A chunks tag) as [s' [r outs]].
+  exact (conj R (conj (proj1 (proj2 (proj2 (proj2 P)))) (proj2 (proj2 (proj2 (proj2 Q)))))).
+Qed.
+Print Assumptions C02_incremental_released.
+
 (* The tag comparison is exact on every bit of every byte. *)
 Theorem C02_check_tag : forall m t1 t2, length t1 = length t2 -> bytes_ok t1 -> bytes_ok t2 ->
   check_tag m t1 t2 = if beq_bytes t1 t2 then (0%Z, m) else ((-1)%Z, map (fun _ => 0%N) m).
@@ -58,5 +117,10 @@ Example C02_nonvacuous :
   let C := Aead.encrypt Perm.perm a80pq K N A P in
   wf_kn a80pq K N /\ decrypt_c Perm.perm a80pq K N A C = DecDone 0 P /\
   decrypt_c Perm.perm a80pq K N A (xor_at C 38 [1%N]) = DecDone (-1) (zeros 23) /\
-  decrypt_c Perm.perm a80pq K N A (firstn 15 C) = DecShort.
-Proof. vm_compute. repeat split. Qed.
+  decrypt_c Perm.perm a80pq K N A (firstn 15 C) = DecShort /\
+  (* incremental: body cut 5 | 0 | 10 | 8 (rate 8: inside, across and at block boundaries); right tag, then one tag bit flipped *)
+  let chunks := [firstn 5 C; []; firstn 10 (skipn 5 C); firstn 8 (skipn 15 C)] in
+  bytes_ok K /\ bytes_ok (skipn 23 C) /\
+  inc_decrypt_run Perm.perm a80pq K N A chunks (skipn 23 C) = (0%Z, [firstn 5 P; []; firstn 10 (skipn 5 P); skipn 15 P]) /\
+  inc_decrypt_run Perm.perm a80pq K N A chunks (xor_at (skipn 23 C) 15 [1%N]) = ((-1)%Z, [firstn 5 P; []; firstn 10 (skipn 5 P); skipn 15 P]).
+Proof. vm_compute. repeat split; repeat constructor. Qed.
